@@ -108,6 +108,7 @@ type Evaluator struct {
 	Pkg       *ssa.Package
 	nextList  int
 	curCall   *ssa.Call
+	recvOv    Val
 	lists     map[int]*ListV
 	fieldMemo map[string]Val
 	busyField map[string]bool
@@ -601,6 +602,26 @@ func (x *Evaluator) evalPhi(v *ssa.Phi, e *env, c *evalCtx) Val {
 	}
 	if _, ok := v.Type().Underlying().(*types.Slice); ok {
 		return x.listPhi(v, vals)
+	}
+	// a struct chosen by a branch: keep every option (method calls are evaluated per option)
+	if _, isStruct := v.Type().Underlying().(*types.Struct); isStruct {
+		var opts []Val
+		for _, a := range vals {
+			if _, ok := a.(selfRef); !ok {
+				opts = append(opts, a)
+			}
+		}
+		if len(opts) > 1 {
+			same := true
+			for _, o := range opts {
+				if fmt.Sprint(o) != fmt.Sprint(opts[0]) {
+					same = false
+				}
+			}
+			if !same {
+				return ChoiceV{Opts: opts}
+			}
+		}
 	}
 	for _, a := range vals {
 		if _, ok := a.(selfRef); !ok {
